@@ -135,7 +135,7 @@ deriving DecidableEq, Repr, Inhabited
 
 inductive Pc
   | start | picked | reading | merging | allocd | ready
-  | cLocked | cSnapped | cSwapped | cChecked | cPrevDone | cDecd | cRemoved | cReleased | cUnlocked
+  | cCloned | cLocked | cSnapped | cSwapped | cChecked | cPrevDone | cDecd | cRemoved | cReleased | cUnlocked
   | closeOwn | oDecd | oRemoved
   | doStart | doListed | doPended | doActived | doRolled | doEvicted | doRemoved
   | done
@@ -162,6 +162,7 @@ deriving Repr, Inhabited
 
 structure Cfg where
   recheck : Bool          -- removeVersion re-checks `ref == 0` under the family lock
+  cloneLocked : Bool := true -- CommitFamilyEditLog takes its snapshot and clones INSIDE the version-set mutex
   threshold : Nat := 2    -- FamilyOption.CompactThreshold
   rollupOn : Bool := false -- StoreOption.Rollup non-empty: a flush marks its output for rollup
 deriving Repr
@@ -283,6 +284,20 @@ def jSnap (s : St) (j : Nat) : St :=
   (buildVersion (snapAcquire s (some j)) (s.job j).edit).setJob j
     { s.job j with csnap := s.nSnap, newVer := s.nextVer, prev := s.cur, pc := .cSnapped }
 
+/-- variant `cloneLocked = false` (snapshot + Clone before `vs.mutex.Lock()`): the clone alone -/
+def cloneVersion (s : St) (e : Edit) : St :=
+  { s with ver := upd s.ver s.nextVer (applyEdit (s.ver s.cur) e), nextVer := s.nextVer + 1 }
+
+/-- …: `GetSnapshot()` + `Clone()` without the mutex (the edit is applied to the clone later, under
+the mutex; applying it to thread-local data earlier is the same) -/
+def jSnapU (s : St) (j : Nat) : St :=
+  (cloneVersion (snapAcquire s (some j)) (s.job j).edit).setJob j
+    { s.job j with csnap := s.nSnap, newVer := s.nextVer, pc := .cCloned }
+
+/-- …: `vs.mutex.Lock()`, persist, apply (`NextFileNumber` bump), enter `appendVersion` -/
+def jLockU (s : St) (j : Nat) : St :=
+  ({ setLock s (some j) with nextFile := s.nextFile + 1 }).setJob j { s.job j with prev := s.cur, pc := .cSnapped }
+
 def swapVersion (s : St) (v : Nat) (e : Edit) : St :=
   { s with active := v :: s.active, cur := v, hist := e :: s.hist }
 
@@ -380,7 +395,9 @@ def jstep (cfg : Cfg) (s : St) (j : Nat) : Option St :=
     | .allocd => some (jCreate cfg s j)
     | .ready =>
       if b.edit.isEmpty then some (setPc s j .cUnlocked)
-      else if s.lock = none then some (jLock s j) else none
+      else if cfg.cloneLocked then (if s.lock = none then some (jLock s j) else none)
+      else some (jSnapU s j)
+    | .cCloned => if s.lock = none then some (jLockU s j) else none
     | .cLocked => some (jSnap s j)
     | .cSnapped => some (jSwap s j)
     | .cSwapped => some (jCheck s j)
